@@ -119,7 +119,11 @@ def table_cell(P, A):
     """(a) the known element among decoy siblings with solver-chosen tags, any position."""
     WEAK[0] = bool(P.get('weak'))
     tag = P['tag']
-    d0, d1 = A['d0'], A['d1']
+    if P.get('ns'):
+        # siblings from a vendor namespace whose LOCAL names are message-element names: {uri}roCreate is not roCreate
+        d0, d1 = '{urn:x-vendor}' + TAGS[A['i']], '{urn:x-vendor}roCreate'
+    else:
+        d0, d1 = A['d0'], A['d1']
     pos = A['pos']
     kids = [T('mosID', 'm'), T('messageID', '7')]
     base = base_element(tag, P['shape'], A)
